@@ -131,7 +131,7 @@ impl<'a> RtcpPacketWriter for UnknownBuilder<'a> {
 
         check_padding(self.padding)?;
 
-        Ok(Unknown::MIN_PACKET_LEN + self.data.len())
+        Ok(Unknown::MIN_PACKET_LEN + self.data.len() + self.padding as usize)
     }
 
     /// Write this Unknown packet data into `buf` without any validity checks.
